@@ -35,7 +35,11 @@ def draw_attach(rng, s, mm):
         if rng.random() < 0.3:
             p1, p2 = p2, p1
         subs.append([name, p1, p2])
-    return {"op": "S.attach", "on": s, "subs": subs, "share": rng.random() < 0.25}
+    o = {"op": "S.attach", "on": s, "subs": subs, "share": rng.random() < 0.25}
+    if subs and rng.random() < 0.3:
+        # the caller keeps the Region objects it attached and moves them in place afterwards
+        o["poke"] = [float((mm.region.pmax[k] - mm.region.pmin[k]) * rng.choice([3, -2, 1])) for k in range(mm.region.ndim)]
+    return o
 
 
 def draw_attach_bad(rng, s, mm):
